@@ -539,10 +539,14 @@ class SubscriptionsManagerBase:
             # this is an error related to the document, it cannot be sent to any subscriber => re-raise
             self._logger.error('Invalid Document: {!r}\n{}', ex, etree.tostring(body_node))  # noqa: PLE1205, TRY400
             raise
-        except Exception:
-            # anything else this subscriber made go wrong (e.g. an answer that is not XML): it is counted against
-            # the subscription; the other subscribers still get the report => log error and continue
+        except etree.XMLSyntaxError:
+            # the subscriber answered with something that is not XML: this is counted against the subscription;
+            # the other subscribers still get the report => log error and continue
             self._logger.exception('could not send notification report for subscription: {}', subscription)  # noqa: PLE1205
+        except Exception:
+            # this should never happen! (e.g. the report itself cannot be serialized) => re-raise
+            self._logger.exception('could not send notification report for subscription: {}', subscription)  # noqa: PLE1205
+            raise
 
     def _get_subscriptions_for_action(self, action: str) -> list[Any]:
         with self._subscriptions.lock:
